@@ -179,6 +179,11 @@ fn recovery_window(kind: &str, cmd_kind: u8) -> usize {
     }
 }
 
+/// a moving average asked to update with a sample whose window would start before `i64::MIN`
+fn window_starts_before_axis(plan: &Plan, kind: &str, sen: &Out) -> bool {
+    matches!(kind, "ma_f" | "ma_q") && sen.time().map_or(false, |t| t.checked_sub(plan.get("window")).is_none())
+}
+
 pub fn execute(plan: &Plan, ctx: &mut Ctx) {
     let kind = plan.gets("kind").to_string();
     let kidx = kind_index(&kind) as u64;
@@ -365,6 +370,15 @@ pub fn execute(plan: &Plan, ctx: &mut Ctx) {
                 expected_panic = true;
                 ctx.count("reach.misdim_panic");
                 ctx.trace(&format!("{} {} panic(expected)", i, op.code));
+            } else if op.code == "U" && window_starts_before_axis(plan, &kind, &script.sen) {
+                // defect D7 (recorded in known_findings.jsonl): the moving average computes `now - window`
+                ctx.violate(
+                    "C12",
+                    "panic_window_start_before_time_axis",
+                    &kind,
+                    format!("op {} ({}): sample {} with window {} ns: panic {:?} at {}", i, op.code, script.sen.show(), plan.get("window"), p.msg, p.short_loc()),
+                );
+                ctx.trace(&format!("{} {} panic", i, op.code));
             } else {
                 ctx.violate(
                     home,
@@ -844,6 +858,10 @@ pub fn execute(plan: &Plan, ctx: &mut Ctx) {
         let twin = run_ops(&p2, &plan.ops[..n], &init);
         ctx.count("reach.variant_twin");
         for i in 0..n.min(twin.len()) {
+            if twin[i].panic.is_some() && plan.ops[i].code == "U" && window_starts_before_axis(plan, other, &scripts_before.get(i).map(|s| s.sen).unwrap_or(Out::None)) {
+                ctx.violate("C12", "panic_window_start_before_time_axis", other, format!("op {}: the {} variant panicked as well (window {} ns)", i, other, plan.get("window")));
+                break;
+            }
             if twin[i].panic.is_some() {
                 ctx.violate("C12", "panic", other, format!("op {}: the {} variant panicked: {:?}", i, other, twin[i].panic.as_ref().map(|p| p.msg.clone())));
                 break;
